@@ -11,6 +11,7 @@ def sh(cmd, cwd=None, timeout=1800):
 def build_demo(i):
     src = [f for f in glob.glob("%s/deliver/demo%d.*" % (wt, i)) if not f.endswith((".o", ".txt")) and os.path.splitext(f)[1] in (".c", ".cpp", ".sh")]
     if not src: return None
+    src.sort(key=lambda f: 0 if f.endswith(".sh") else 1)
     s = src[0]
     if s.endswith(".sh"): return "sh " + s
     head = open(s).read()[:3000]
